@@ -93,6 +93,8 @@ class Policy:
         self.applied: list = []
         self.stream_log: list = []  # (flow id, "request"|"response", chunk in, chunk(s) out) per stream-callable call
         self.poke_log: list = []  # (t, hook, attr, connection was open, assignment raised)
+        # (t, hook, attr, mitmproxy's state flag said open, assignment raised, (host, port) the socket goes to)
+        self.conn_poke_log: list = []
         self.by_hook: dict[str, list] = {}
         for r in self.rules:
             self.by_hook.setdefault(r["hook"], []).append(r)
@@ -115,6 +117,15 @@ class Policy:
                 self.w.net.fired("hook_latency")
                 await asyncio.sleep(lat)
             self.apply(name, n, data, r)
+            if r.get("action") == "intercept" and r.get("then") == "kill_in_hook" and name not in CONN_HOOKS:
+                # an addon later in the chain (or this one, after more work) kills the flow while the hook that
+                # intercepted it is still running, i.e. before the proxy has started to wait for a resume
+                after = r.get("after", 0.0)
+                if after and after > 0:
+                    await asyncio.sleep(after)
+                self.applied.append((self.w.loop.time(), name, n, "then_kill_in_hook", getattr(data, "id", None)))
+                if data.killable:
+                    data.kill()
 
     def apply(self, name, n, data, r):
         from mitmproxy import http
@@ -127,6 +138,24 @@ class Policy:
             if act == "set_error":
                 conn = data if name.startswith("client") else data.server
                 conn.error = r.get("msg", "killed by policy")
+            elif act == "poke_server_conn" and name.startswith("server"):
+                # an addon trying to re-point the server connection from inside a connection hook.  Whether the
+                # connection counts as open is for the oracle to decide from the hook name and the simulated
+                # sockets; mitmproxy's own state flag is recorded only as information.
+                from mitmproxy.connection import ConnectionState
+                sc_ = data.server
+                flag_open = sc_.state is ConnectionState.OPEN
+                target = tuple(sc_.via[1]) if sc_.via else (tuple(sc_.address) if sc_.address else None)
+                for attr, val in (("address", ("evil.test", 6666)), ("via", ("http", ("evil.test", 3128)))):
+                    before = getattr(sc_, attr)
+                    try:
+                        setattr(sc_, attr, val)
+                        raised = False
+                        # undo through the backdoor so the run can go on; the oracle has its witness
+                        sc_.__dict__[attr] = before
+                    except RuntimeError:
+                        raised = True
+                    self.conn_poke_log.append((self.w.loop.time(), name, attr, flag_open, raised, target))
             return
         f = data
         if act == "kill":
@@ -196,7 +225,7 @@ class Policy:
                     pass
                 else:
                     f.resume()
-            if then != "never":
+            if then not in ("never", "kill_in_hook"):
                 self.w.loop.call_later(after, later)
 
     def _edit(self, f, r):
@@ -388,7 +417,7 @@ async def origin_h1(world, obs, conn, spec):
                     conn.reset()
                     return
                 if then == "tunnel":
-                    await origin_tunnel(world, obs, conn, spec, r)
+                    await origin_tunnel(world, obs, conn, spec, r, consumed)
                     return
         if progressed:
             continue
@@ -407,8 +436,12 @@ async def _drain_until_closed(conn, idle):
             return
 
 
-async def origin_tunnel(world, obs, conn, spec, r):
-    """After a 2xx to CONNECT (upstream proxy peer) or a 101: echo-style opaque peer."""
+async def origin_tunnel(world, obs, conn, spec, r, start=0):
+    """After a 2xx to CONNECT (upstream proxy peer) or a 101: echo-style opaque peer.
+
+    `start` = offset in conn.rx where the opaque stream begins (end of the request that opened the tunnel).
+    With r["echo"] set, every opaque byte received (including what arrived glued to the request) is sent back
+    verbatim, after the scripted `inner` steps, until the proxy closes its side."""
     inner = r.get("inner")
     if inner:
         for step in inner:
@@ -418,6 +451,18 @@ async def origin_tunnel(world, obs, conn, spec, r):
                 await asyncio.sleep(step["t"])
             elif step["op"] == "fin":
                 conn.send_eof()
+    if r.get("echo"):
+        pos = start
+        idle = spec.get("idle_close", 30.0)
+        while not conn.peer_eof:
+            data = bytes(conn.rx)
+            if len(data) > pos:
+                obs.origin_log.append((world.loop.time(), conn.id, "echo", len(data) - pos))
+                conn.feed(data[pos:])
+                pos = len(data)
+                continue
+            if conn.rx_eof or not await conn.wait_change(idle):
+                break
     await _drain_until_closed(conn, spec.get("idle_close", 30.0))
     if not conn.peer_eof:
         conn.send_eof()
@@ -461,6 +506,16 @@ async def client_h1(world, obs, conn, cspec):
             while conn.rx_total < step["n"] and not conn.proxy_closed:
                 left = deadline - world.loop.time()
                 if left <= 0:
+                    break
+                await conn.wait_change(left)
+        elif op == "await_marker":
+            # wait until the given byte string has shown up in what the proxy wrote (opaque streams after an upgrade)
+            deadline = world.loop.time() + step.get("timeout", 30.0)
+            marker = B(step["marker"])
+            while marker not in bytes(conn.received) and not (conn.proxy_closed or conn.rx_eof):
+                left = deadline - world.loop.time()
+                if left <= 0:
+                    obs.client_log.append((world.loop.time(), conn.id, "await_timeout", step["marker"]))
                     break
                 await conn.wait_change(left)
         elif op == "fin":
